@@ -3,7 +3,7 @@
    safety is carried by the model-vs-implementation comparison of exception classes (the model
    raises exactly where an unguarded read of the Python would).  Only statements and [exact]. *)
 From MD Require Import Base.Py Base.Str Base.Opt Model.Token Model.Utils Model.Render Model.StateBlock
-     Model.Block Model.Inline Model.Pipeline Lemmas.RenderLemmas Lemmas.TotalLemmas Lemmas.InlineLemmas.
+     Model.Block Model.Inline Model.Pipeline Lemmas.RenderLemmas Lemmas.TotalLemmas Lemmas.InlineLemmas Lemmas.ScanLemmas.
 
 (* the statement of the property on the model (full strength; proved only in parts below) *)
 Definition pipeline_total_statement : Prop :=
@@ -43,3 +43,14 @@ Print Assumptions C01_skip_token_cap.
 Theorem C01_table_read_in_range : forall l i, 0 <= i < len l -> exists v, tb l i = Ok v.
 Proof. exact tb_in_range. Qed.
 Print Assumptions C01_table_read_in_range.
+
+(* a fresh StateBlock: every read of the five line tables at a line in [0, lineMax] succeeds,
+   for every source *)
+Theorem C01_fresh_tables_readable :
+  forall src env toks line,
+    let s := state_init src env toks in
+    0 <= line <= b_lineMax s ->
+    exists b e t c bs, tb (b_bMarks s) line = Ok b /\ tb (b_eMarks s) line = Ok e /\ tb (b_tShift s) line = Ok t
+                       /\ tb (b_sCount s) line = Ok c /\ tb (b_bsCount s) line = Ok bs.
+Proof. exact state_init_reads_ok. Qed.
+Print Assumptions C01_fresh_tables_readable.
